@@ -50,10 +50,11 @@ type Spec struct {
 	Via        string     `json:"via"`             // referral | domain_realm
 	TGTLives   []LifeSpec `json:"tgt_lives,omitempty"`
 	SvcLives   []LifeSpec `json:"svc_lives,omitempty"`
-	KDCs       int        `json:"kdcs"`                // configured KDC hosts for the client's realm (1..3), all answering
-	DupKDC     bool       `json:"duplicate_kdc_entry"` // the client's realm lists its first KDC host twice in a row (kdc = A, kdc = A, kdc = B ...)
-	KDCGrace   bool       `json:"kdc_grace,omitempty"` // the KDCs honour a presented ticket up to five minutes after its end time, as KDCs applying their clock skew do
-	Loop       bool       `json:"referral_loop"`       // SPN 2 lives in a realm nobody reaches: the KDCs refer the client round in a circle
+	KDCs       int        `json:"kdcs"`                  // configured KDC hosts for the client's realm (1..3), all answering
+	DupKDC     bool       `json:"duplicate_kdc_entry"`   // the client's realm lists its first KDC host twice in a row (kdc = A, kdc = A, kdc = B ...)
+	ClockSkewS int        `json:"clockskew_s,omitempty"` // libdefaults clockskew in seconds (0 = the default 300)
+	KDCGrace   bool       `json:"kdc_grace,omitempty"`   // the KDCs honour a presented ticket up to five minutes after its end time, as KDCs applying their clock skew do
+	Loop       bool       `json:"referral_loop"`         // SPN 2 lives in a realm nobody reaches: the KDCs refer the client round in a circle
 }
 
 var ETypeNames = map[int32]string{16: "des3-cbc-sha1-kd", 17: "aes128-cts-hmac-sha1-96", 18: "aes256-cts-hmac-sha1-96",
@@ -65,14 +66,18 @@ func RealmName(i int) string { return fmt.Sprintf("R%d.TEST", i) }
 // ExtraSPNs is the number of additional services (pool indices 5..) registered in the last realm.
 const ExtraSPNs = 40000
 
-// SPN pool: 0..2 remote services (in the last realm), 3 local service, 4 unknown, 5..40004 further remote services (owned on demand).
+// SPN pool: 0..2 remote services (in the last realm), 3 local service, 4 unknown, 5 service 0's name in upper case, 6..40004 further remote services (owned on demand).
 func (s *Spec) SPN(i int) string {
 	switch {
 	case i <= 2:
 		return fmt.Sprintf("HTTP/svc%d.r%d.test", i, s.Hops)
 	case i == 3:
 		return "HTTP/local.r0.test"
-	case i >= 5 && i < 5+ExtraSPNs:
+	case i == 5:
+		// the name of service 0 in other letter case: Kerberos names are case-sensitive, this is another principal with
+		// another key
+		return fmt.Sprintf("HTTP/SVC0.r%d.test", s.Hops)
+	case i > 5 && i < 5+ExtraSPNs:
 		return fmt.Sprintf("HTTP/extra%d.r%d.test", i, s.Hops)
 	}
 	return "HTTP/nonexistent.r0.test"
@@ -173,7 +178,7 @@ func Build(s *Spec) (*World, error) {
 	}
 	// the spare services (pool indices 5..) are not registered one by one: the last realm owns every name of their
 	// form and every realm routes such a name there
-	extra := regexp.MustCompile(fmt.Sprintf(`^HTTP/extra[0-9]+\.r%d\.test$`, s.Hops))
+	extra := regexp.MustCompile(fmt.Sprintf(`^HTTP/(extra[0-9]+|SVC0)\.r%d\.test$`, s.Hops))
 	w.Realms[s.Hops].AutoService = extra.MatchString
 	for _, r := range w.Realms {
 		r.AutoRoute = func(name string) (string, bool) { return last, extra.MatchString(name) }
@@ -193,6 +198,9 @@ func Build(s *Spec) (*World, error) {
 		NoAddresses: s.NoAddr, RenewLifetime: s.RenewLife, TicketLife: s.TicketLife, UDPPrefLimit: &lim, Extra: "  allow_weak_crypto = true\n"}
 	if !s.NoAddr {
 		o.Extra += "  extra_addresses = 10.9.8.7\n"
+	}
+	if s.ClockSkewS > 0 {
+		o.Extra += fmt.Sprintf("  clockskew = %d\n", s.ClockSkewS)
 	}
 	if s.Via == "domain_realm" && s.Hops > 0 {
 		o.DomainRealm = map[string]string{fmt.Sprintf(".r%d.test", s.Hops): last}
